@@ -25,6 +25,28 @@ FnStmts ==
   \cup {St(EDo(<<EAsg(m, EId(n))>>, ENum(0)), "") : n \in Vars, m \in Vars}                  \* alias inside a do-block
   \cup {St(EAsg(n, EDo(<<EAsg(m, ELam(<<Req("x")>>, EIf(EBin("lt", EId("x"), N1), ENum(0), ECall(EId(m), <<EBin("sub", EId("x"), N1)>>))))>>, EId(m))), "") : n \in Vars, m \in Vars}
   \cup {St(ECall(EId(n), <<ENum(2)>>), "") : n \in Vars}
+\* data values observed through their names: records (static / shorthand / computed keys, spreads), strings, booleans, null,
+\* field and index access, spreads into lists and calls, unary and logical operators - over whatever the names hold by then
+SA == Str(<<12>>)   \* "a"
+DataStmts ==
+     {St(EAsg(n, ERec(<<RStatic(<<12>>, N1), RStatic(<<13>>, EList(<<N1>>))>>)), "") : n \in Vars}      \* n = {a: 1, b: [1]}
+  \cup {St(EAsg(n, ELit(v)), "") : n \in Vars, v \in {SA, Bool(TRUE), Null}}
+  \cup {St(EAsg(n, EList(<<ENum(2)>>)), "") : n \in Vars}
+  \cup {St(EAsg(n, ERec(<<RShort(m), RStatic(<<12>>, ENum(2))>>)), "") : n \in Vars, m \in Vars}          \* n = {m, a: 2}
+  \cup {St(EAsg(n, ERec(<<RStatic(<<14>>, ENum(3)), RSpreadE(EId(m)), RStatic(<<14>>, ENum(4))>>)), "") : n \in Vars, m \in Vars}
+  \cup {St(EAsg(n, ERec(<<RDyn(EId(m), N1)>>)), "") : n \in Vars, m \in Vars}                              \* n = {[m]: 1}
+  \cup {St(EAsg(n, EDot(EId(m), <<12>>)), "") : n \in Vars, m \in Vars}                                      \* n = m.a
+  \cup {St(EIdx(EId(m), ELit(SA)), "") : m \in Vars}                                                          \* m["a"]
+  \cup {St(EIdx(EId(m), ENum(0)), "") : m \in Vars}
+  \cup {St(EAsg(n, EList(<<ESpread(EId(m)), ENum(3)>>)), "") : n \in Vars, m \in Vars}                      \* n = [...m, 3]
+  \cup {St(ECall(EId("max"), <<ESpread(EId(m)), N1>>), "") : m \in Vars}                                      \* max(...m, 1)
+  \cup {St(EAsg(n, EBin("add", EId(m), ELit(Str(<<13>>)))), "") : n \in Vars, m \in Vars}                   \* n = m + "b"
+  \cup {St(EUn(o, EId(m)), "") : o \in {"neg", "not"}, m \in Vars}
+  \cup {St(EBin(o, EId(m), ELit(Bool(TRUE))), "") : o \in {"and", "nor"}, m \in Vars}
+  \cup {St(EAsg(n, EBin("coalesce", EId(m), ENum(5))), "") : n \in Vars, m \in Vars}
+  \cup {St(EBin("or", EAsg(n, ELit(Bool(TRUE))), EId("zz")), "") : n \in Vars}                                \* (n = true) || zz : both sides run
+  \cup {St(EIf(EId(m), N1, ENum(2)), "") : m \in Vars}
+  \cup {St(EId(n), n) : n \in Vars}
 AllStmts ==
      {St(EAsg(n, ENum(k)), "") : n \in Vars, k \in {1, 2}}
   \cup {St(EAsg(n, EId(m)), "") : n \in Vars, m \in Vars}
@@ -44,7 +66,7 @@ AllStmts ==
   \cup {St(EBin("via", EList(<<N1, ENum(2)>>), ELam(<<Req(n)>>, EId(n))), "") : n \in Vars}
   \cup {St(Plus(EId(n), N1), "") : n \in Vars}
   \cup {St(EDo(<<EAsg(m, EId(n))>>, ENum(0)), "") : n \in Vars, m \in Vars}
-Stmts == IF Alphabet = "fn" THEN FnStmts ELSE AllStmts
+Stmts == CASE Alphabet = "fn" -> FnStmts [] Alphabet = "data" -> DataStmts [] OTHER -> AllStmts
 
 Init == SInit
 Next == \E st \in Stmts : Len(hist) < SDepth /\ Do(st)
